@@ -218,8 +218,10 @@ func (m *Machine) violate(label, site string, extra *Term) {
 	var model map[string]uint64
 	if len(conj) == 0 {
 		r, model = resSat, map[string]uint64{}
+	} else if extra != nil {
+		r, model = m.solver.Sat(m.pc, m.vars, extra)
 	} else {
-		r, model = m.solver.Sat(conj, m.vars)
+		r, model = m.solver.Sat(m.pc, m.vars)
 	}
 	if extra != nil {
 		ex.mu.Lock()
